@@ -229,9 +229,11 @@ example : forErrors {} [1] (bodyScope {} (.leaf 1 ["i".toList] ["x".toList, loop
     (.call 2 [] [] ["w".toList] (.leaf 3 [] [loopName] .nil) .nil))).frames
     (.leaf 1 ["i".toList] ["x".toList, loopName] (.call 2 [] [] ["w".toList] (.leaf 3 [] [loopName] .nil) .nil)) = [] := by decide
 
-/-- REGRESSION (the defect F-C04-9 before bca4969, kept as a model-level fact): were the `% for` leaf *not* counted as a
-reader of `loop` – the suite mentions `loop` only inside the `<%call>` body – the line (tag 1) would be rewritten to use
-`__M_loop` although `render_body` never creates it. -/
+/-- REGRESSION illustration (the defect F-C04-9 before bca4969, kept as a fixed model-level fact): were the `% for` leaf
+*not* counted as a reader of `loop` – the suite mentions `loop` only inside the `<%call>` body – the line (tag 1) would be
+rewritten to use `__M_loop` although `render_body` never creates it.  This theorem holds on every tree; the obligation
+that FAILS when the repair is reverted is the conjunct `Generated.Names.forLineReadsLoop = true` of
+`for_rewrite_finds_loop` (regenerated from `_Identifiers.visitControlLine`). -/
 theorem for_rewrite_without_loop_read_regression :
     let t : Body := .leaf 1 ["i".toList] ["x".toList] (.call 2 [] [] ["w".toList] (.leaf 3 [] [loopName] .nil) .nil)
     forErrors {} [1] (bodyScope {} t).frames t = [1] := by decide
